@@ -175,7 +175,10 @@ def run_harness(ctx, name, binary, args, timeout=3000, env=None):
     if rc != 0 or not os.path.exists(os.path.join(d, "meta.json")):
         ctx.oblige(f"harness run {name}", False, out)
         return None
-    return compare(ctx, name, d)
+    res = compare(ctx, name, d)
+    if res is not None:
+        res["harness"] = {"binary": binary, "args": args}
+    return res
 
 
 def compare(ctx, name, d):
@@ -282,12 +285,13 @@ def fold(ctx, res, props, corr_name):
     gf = [g for g in (meta.get("gofails") or []) if mine(g["property"])]
     ctx.oblige(f"correspondence {corr_name}: model output = implementation output on every generated case", not cb,
                "\n".join(f"op: {c[1][:400]}\n impl: {c[2][:400]}\n model: {c[3][:400]}" for c in cb[:3]))
+    hz = res.get("harness")
     for prop, op, want, got in sb[:20]:
         ctx.violations.append({"sig": f"{prop} spec-oracle {op.split(' ',1)[0]} {got}", "detail": f"spec predicate {op.split(' ',1)[0]} fails on the implementation's output (want {want}, got {got})",
-                               "replay": {"ops": [op], "expected": [want], "model": [got]}})
+                               "replay": {"ops": [op], "expected": [want], "model": [got], "harness": hz, "kind": f"spec-oracle {op.split(' ',1)[0]}"}})
     for g in gf[:50]:
         ctx.violations.append({"sig": f"{g['property']} {g['kind']} {g['detail']}", "detail": f"{g['kind']}: {g['detail']}",
-                               "replay": {"ops": g.get("replay", []), "go_oracle": g["kind"]}})
+                               "replay": {"ops": g.get("replay", []), "go_oracle": g["kind"], "harness": hz, "kind": g["kind"]}})
     if cb:
         ctx.corr_bad = getattr(ctx, "corr_bad", []) + cb
     for p in props:
